@@ -19,7 +19,6 @@ package main
 
 import (
 	"encoding/json"
-	"errors"
 	"fmt"
 	"math"
 	"sort"
@@ -43,8 +42,6 @@ import (
 )
 
 type C = vh.Ctx
-
-const sigDoubleRounding = "defval-float32-double-rounding"
 
 func main() { vh.Main("defval", run) }
 
@@ -260,29 +257,13 @@ func parse64For(k protoreflect.Kind, s string) string {
 	return fmt.Sprintf("%016x", math.Float64bits(v))
 }
 
-func parse32For(s string) string {
-	v, err := strconv.ParseFloat(s, 32)
-	if err != nil && !errors.Is(err, strconv.ErrRange) {
+// parse32For: the float64 that `v, _ = strconv.ParseFloat(s, 32)` leaves in v (the code discards the error).
+func parse32For(k protoreflect.Kind, s string) string {
+	if k != protoreflect.FloatKind {
 		return "_"
 	}
-	return fmt.Sprintf("%08x", math.Float32bits(float32(v))) // a range error is ignored by the repair: ±Inf
-}
-
-// doubleRounding is the classifier of finding 16 on a float32 value: its shortest 32-bit text parsed at
-// 32 bits gives the value back, but parsed at 64 bits and then narrowed it does not.
-func doubleRounding(f float32) bool {
-	if f != f || math.IsInf(float64(f), 0) {
-		return false
-	}
-	return doubleRoundingText(strconv.FormatFloat(float64(f), 'g', -1, 32)) &&
-		func() bool { v, err := strconv.ParseFloat(strconv.FormatFloat(float64(f), 'g', -1, 32), 32); return err == nil && float32(v) == f }()
-}
-
-// doubleRoundingText: ParseFloat(s,64) narrowed differs from ParseFloat(s,32).
-func doubleRoundingText(s string) bool {
-	v64, e1 := strconv.ParseFloat(s, 64)
-	v32, e2 := strconv.ParseFloat(s, 32)
-	return e1 == nil && e2 == nil && math.Float32bits(float32(v64)) != math.Float32bits(float32(v32))
+	v, _ := strconv.ParseFloat(s, 32)
+	return fmt.Sprintf("%016x", math.Float64bits(v))
 }
 
 // ---------------------------------------------------------------- the round trip
@@ -333,12 +314,7 @@ func roundTrip(c *C, k protoreflect.Kind, f defval.Format, v protoreflect.Value,
 		in.Enum, in.Name = string(ed.FullName()), string(ev.Name())
 		evs = ed.Values()
 	}
-	sig := ""
-	if k == protoreflect.FloatKind {
-		if x, ok := v.Interface().(float32); ok && doubleRounding(x) {
-			sig = sigDoubleRounding
-		}
-	}
+	const sig = "" // no known findings: every failure is reported
 	mres, text, ok := implMarshal(v, ev, k, f)
 	if !c.Check(ok, "Marshal failed on a well-typed value: "+mres, in, "") {
 		c.Case("", false)
@@ -365,7 +341,7 @@ func roundTrip(c *C, k protoreflect.Kind, f defval.Format, v protoreflect.Value,
 	if model && c.HasModel() {
 		mm := c.Ask("marshal %s %s %s %s %s", in.Fmt, in.Kind, in.Val, evStr(ev), fmtFloatFor(k, v))
 		c.Compare("Marshal: model vs implementation", in, mres, mm)
-		mu := c.Ask("unmarshal %s %s %s %s %s", in.Fmt, in.Kind, vh.Hex([]byte(text)), evsStr(evs), parse64For(k, text))
+		mu := c.Ask("unmarshal %s %s %s %s %s %s", in.Fmt, in.Kind, vh.Hex([]byte(text)), evsStr(evs), parse64For(k, text), parse32For(k, text))
 		c.Compare("Unmarshal(Marshal): model vs implementation", in, ures, mu)
 	}
 }
@@ -389,7 +365,7 @@ func unmarshalText(c *C, k protoreflect.Kind, f defval.Format, text string, ed p
 		c.Hist("unm-err:" + in.Kind)
 	}
 	if c.HasModel() {
-		mu := c.Ask("unmarshal %s %s %s %s %s", in.Fmt, in.Kind, in.Text, evsStr(evs), parse64For(k, text))
+		mu := c.Ask("unmarshal %s %s %s %s %s %s", in.Fmt, in.Kind, in.Text, evsStr(evs), parse64For(k, text), parse32For(k, text))
 		if k == protoreflect.BytesKind && mu == "err" {
 			// the model's unmarshal maps `unsupported` (\u, \U escapes) to err: ask the parser itself
 			if c.Ask("unmarshalBytes %s", in.Text) == "unsupported" {
@@ -898,18 +874,18 @@ func f32Boundaries() []uint32 {
 	return out
 }
 
-// lawChecks validates the hypotheses of the Lean theorems against strconv for one float32 pattern:
-// Law32 (parse at 32 bits) must hold for every finite value; Law32Via64 fails exactly where doubleRounding says.
-func law32(b uint32) (law32ok bool, via64ok bool, special bool) {
+// law32 validates the hypothesis Law32 of the Lean theorems against strconv for one float32 pattern: the shortest
+// 32-bit text of a finite value is not a special token, ParseFloat accepts it at 64 bits, and at 32 bits gives the value back.
+func law32(b uint32) bool {
 	f := math.Float32frombits(b)
 	if f != f || math.IsInf(float64(f), 0) {
-		return true, true, false
+		return true
 	}
 	s := strconv.FormatFloat(float64(f), 'g', -1, 32)
-	special = s == "inf" || s == "-inf" || s == "nan"
-	v32, e32 := strconv.ParseFloat(s, 32)
-	v64, e64 := strconv.ParseFloat(s, 64)
-	return e32 == nil && e64 == nil && math.Float32bits(float32(v32)) == b, e64 == nil && math.Float32bits(float32(v64)) == b, special
+	special := s == "inf" || s == "-inf" || s == "nan"
+	v32, _ := strconv.ParseFloat(s, 32)
+	_, e64 := strconv.ParseFloat(s, 64)
+	return !special && e64 == nil && math.Float32bits(float32(v32)) == b
 }
 
 func runFloats(c *C) {
@@ -949,23 +925,7 @@ func runFloats(c *C) {
 		for _, fm := range formats {
 			roundTrip(c, protoreflect.FloatKind, fm, protoreflect.ValueOfFloat32(f), nil, nil, model)
 		}
-		l32, via64, special := law32(b)
-		in := rtIn{Op: "law32", Val: fmt.Sprintf("f32:%08x", b)}
-		c.Check(l32 && !special, "Law32 (hypothesis of C39.float_roundtrip_fixed) fails for strconv", in, "")
-		c.Check(via64 == !doubleRounding(f), "Law32Via64 fails outside the double-rounding classifier (or holds inside it)", in, "")
-		if model && c.HasModel() && l32 {
-			// the repaired Unmarshal of the model gives the value back
-			s := strconv.FormatFloat(float64(f), 'g', -1, 32)
-			if f != f {
-				s = "nan"
-			} else if math.IsInf(float64(f), 1) {
-				s = "inf"
-			} else if math.IsInf(float64(f), -1) {
-				s = "-inf"
-			}
-			got := c.Ask("unmarshalFixed D float %s _ %s %s", vh.Hex([]byte(s)), parse64For(protoreflect.FloatKind, s), parse32For(s))
-			c.Compare("unmarshalFixed(model) returns the value", in, "ok "+valStr(protoreflect.ValueOfFloat32(f))+" _", got)
-		}
+		c.Check(law32(b), "Law32 (hypothesis of C39.float_roundtrip) fails for strconv", rtIn{Op: "law32", Val: fmt.Sprintf("f32:%08x", b)}, "")
 	}
 	for _, b := range f32Boundaries() {
 		check32(b, true)
@@ -983,13 +943,15 @@ func runFloats(c *C) {
 	} else {
 		sweepFloat32(c)
 	}
-	// the two strconv facts that C39.float_double_rounding_witness takes as hypotheses
+	// the strconv facts that C39.float_former_witness takes as hypotheses
 	{
 		in := rtIn{Op: "witness", Val: "f32:15ae43fd"}
 		s := strconv.FormatFloat(float64(math.Float32frombits(0x15AE43FD)), 'g', -1, 32)
-		v, err := strconv.ParseFloat("7.038531e-26", 64)
+		_, err := strconv.ParseFloat("7.038531e-26", 64)
+		v32, _ := strconv.ParseFloat("7.038531e-26", 32)
 		c.Check(s == "7.038531e-26", "witness hypothesis hfmt no longer holds: FormatFloat gives "+s, in, "")
-		c.Check(err == nil && math.Float64bits(v) == 0x3AB5C87FB0000000, fmt.Sprintf("witness hypothesis hparse no longer holds: %016x", math.Float64bits(v)), in, "")
+		c.Check(err == nil, "witness hypothesis hparse64 no longer holds", in, "")
+		c.Check(math.Float64bits(v32) == 0x3AB5C87FA0000000, fmt.Sprintf("witness hypothesis hparse32 no longer holds: %016x", math.Float64bits(v32)), in, "")
 	}
 	// special tokens and other float texts through Unmarshal (model vs implementation)
 	texts := []string{"inf", "-inf", "nan", "+inf", "Inf", "-Inf", "INF", "NaN", "NAN", "-nan", "+nan", "infinity", "-infinity", "Infinity", "", " ", "0", "-0", "+0",
@@ -1038,7 +1000,7 @@ func runFloats(c *C) {
 
 // sweepFloat32 pushes ALL 2^32 float32 bit patterns through defval.Marshal -> defval.Unmarshal(FloatKind)
 // (Descriptor format; GoTag shares the code path and is covered by the sampled streams) on 16 goroutines and
-// validates Law32 / Law32Via64 against strconv on every pattern.
+// validates Law32 against strconv on every pattern.
 func sweepFloat32(c *C) {
 	const workers = 16
 	type bad struct {
@@ -1069,14 +1031,14 @@ func sweepFloat32(c *C) {
 						ok = isf && (math.Float32bits(g) == b || (g != g && f != f))
 					}
 				}
-				l32, via64, special := law32(b)
+				l32 := law32(b)
 				cnt++
 				if b != 0 {
 					nt++
 				}
-				if !ok || !l32 || special || via64 != ok {
+				if !ok || !l32 {
 					if len(local) < 64 {
-						local = append(local, bad{b, fmt.Sprintf("roundtrip=%v law32=%v law32via64=%v special=%v", ok, l32, via64, special)})
+						local = append(local, bad{b, fmt.Sprintf("roundtrip=%v law32=%v", ok, l32)})
 					}
 				}
 			}
@@ -1100,10 +1062,7 @@ func sweepFloat32(c *C) {
 		for _, fm := range formats {
 			roundTrip(c, protoreflect.FloatKind, fm, protoreflect.ValueOfFloat32(f), nil, nil, true)
 		}
-		l32, via64, special := law32(b.bits)
-		in := rtIn{Op: "law32", Val: fmt.Sprintf("f32:%08x", b.bits)}
-		c.Check(l32 && !special, "Law32 (hypothesis of C39.float_roundtrip_fixed) fails for strconv", in, "")
-		c.Check(via64 == !doubleRounding(f), "Law32Via64 fails outside the double-rounding classifier (or holds inside it)", in, "")
+		c.Check(law32(b.bits), "Law32 (hypothesis of C39.float_roundtrip) fails for strconv", rtIn{Op: "law32", Val: fmt.Sprintf("f32:%08x", b.bits)}, "")
 	}
 }
 
@@ -1166,10 +1125,7 @@ func defaultStr(fd protoreflect.FieldDescriptor) string {
 // NewFile -> Default -> ToFileDescriptorProto -> NewFile -> Default -> ToFileDescriptorProto.
 func glueOne(c *C, f glueField) {
 	in := rtIn{Op: "glue", Kind: f.kind.String(), Text: vh.Hex([]byte(f.text))}
-	sig := ""
-	if f.kind == protoreflect.FloatKind && doubleRoundingText(f.text) {
-		sig = sigDoubleRounding
-	}
+	const sig = ""
 	defer c.Recover("descriptor glue", in, "")
 	fd1, err := protodesc.NewFile(buildGlueFile([]glueField{f}), nil)
 	c.Case("glue"+in.Kind+in.Text, err == nil)
@@ -1337,6 +1293,6 @@ func runC39(c *C) {
 		}
 	}
 	c.Sample(map[string]string{"kind": "bytes", "value": "01 37", "text": `\0017`})
-	c.Sample(map[string]string{"kind": "float", "value": "0x15AE43FD", "text": "7.038531e-26", "back": "0x15AE43FE (finding 16)"})
+	c.Sample(map[string]string{"kind": "float", "value": "0x15AE43FD", "text": "7.038531e-26", "back": "0x15AE43FD (finding 16, fixed)"})
 	c.Sample(map[string]string{"kind": "enum (GoTag)", "value": "G_NEG", "text": "-1"})
 }
